@@ -222,15 +222,15 @@ theorem dtick_invC {inp : RunInput} {s s' : Sys} {perm : List Name} (hN : InvN i
 
 /-! ### everything but `dtick` is a `Back` step -/
 
-theorem wakeOne_back {q : Prop} {inp : RunInput} {s : Sys} {pst : RS} {p w : Name} {nd : Node}
+theorem wakeOne_back {q : Prop} {inp : RunInput} [NoFailDeliver inp] {s : Sys} {pst : RS} {p w : Name} {nd : Node}
     (hw : s.nodes w = some nd) : BackG q s (wakeOne inp s pst p w nd) := by
   have base := back_setNode (p := q) (x := wokenNode inp pst p nd) hw (wokenNode_upd inp pst p nd).pc
     (fun _ => (wokenNode_upd inp pst p nd).status)
-  unfold wakeOne; split
+  rw [wakeOne_eq (inp := inp)]; split
   · exact base.wrap rfl rfl
   · exact base
 
-theorem updateWaiting_back (q : Prop) (inp : RunInput) (pst : RS) (p : Name) :
+theorem updateWaiting_back (q : Prop) (inp : RunInput) [NoFailDeliver inp] (pst : RS) (p : Name) :
     ∀ (perm : List Name) (s s' : Sys), updateWaiting inp pst p s perm = some s' → BackG q s s' := by
   intro perm
   induction perm with
@@ -244,7 +244,7 @@ theorem updateWaiting_back (q : Prop) (inp : RunInput) (pst : RS) (p : Name) :
       simp only [hw] at hs
       split at hs
       · cases hs
-      · exact (wakeOne_back hw).trans (ih _ s' hs)
+      · exact (wakeOne_back (inp := inp) hw).trans (ih _ s' hs)
 
 theorem sendHead_back {q : Prop} {s : Sys} {p : Name} {nd : Node} (hn : s.nodes p = some nd) :
     BackG q s (sendHead s p nd) := by
@@ -252,7 +252,7 @@ theorem sendHead_back {q : Prop} {s : Sys} {p : Name} {nd : Node} (hn : s.nodes 
   · exact (back_setNode (x := { nd with waitSelect := false }) hn rfl (fun _ => rfl)).wrap rfl rfl
   · exact BackG.of_eq rfl rfl
 
-theorem send_back {q : Prop} {inp : RunInput} {s s' : Sys} {processed : Option Name} {perm : List Name}
+theorem send_back {q : Prop} {inp : RunInput} [NoFailDeliver inp] {s s' : Sys} {processed : Option Name} {perm : List Name}
     (hs : send inp s processed perm = some s') : BackG q s s' := by
   unfold send at hs
   cases processed with
@@ -307,7 +307,7 @@ theorem gReturn_toRun (s : Sys) (job : Job) (ret : Ret) : (gReturn s job ret).to
     · rfl
 
 /-- a step of the serial runner is a dispatcher tick or leaves generators and `tasks_to_run` alone -/
-theorem serialStep_back {inp : RunInput} {s s' : Sys} {perm : List Name} (hs : serialStep inp s perm = some s') :
+theorem serialStep_back {inp : RunInput} [NoFailDeliver inp] {s s' : Sys} {perm : List Name} (hs : serialStep inp s perm = some s') :
     dtick inp s perm = some s' ∨ BackW s s' := by
   unfold serialStep at hs
   cases hr : s.rpc with
@@ -365,7 +365,7 @@ theorem serialStep_back {inp : RunInput} {s s' : Sys} {perm : List Name} (hs : s
   | pJoin => simp only [hr] at hs; cases hs
   | halted => simp only [hr] at hs; cases hs
 
-theorem mainStep_back {inp : RunInput} {s s' : Sys} {perm : List Name} (hs : mainStep inp s perm = some s') :
+theorem mainStep_back {inp : RunInput} [NoFailDeliver inp] {s s' : Sys} {perm : List Name} (hs : mainStep inp s perm = some s') :
     dtick inp s perm = some s' ∨ BackW s s' := by
   unfold mainStep at hs
   cases hr : s.rpc with
@@ -455,7 +455,7 @@ theorem doneStep_back {s s' : Sys} {w : Nat} (hs : doneStep s w = some s') : Bac
 theorem init_invC (inp : RunInput) : InvC inp (init inp) :=
   ⟨fun n nd hn => by simp [init] at hn, fun t ht => DenCl.ofSel ht⟩
 
-theorem reach_invC {inp : RunInput} {s : Sys} (hnc : NoCalc inp) (h : Reach inp s) : InvC inp s := by
+theorem reach_invC {inp : RunInput} [NoFailDeliver inp] {s : Sys} (hnc : NoCalc inp) (h : Reach inp s) : InvC inp s := by
   induction h with
   | init => exact init_invC inp
   | @next s0 s1 c hr hs ih =>
@@ -468,7 +468,7 @@ theorem reach_invC {inp : RunInput} {s : Sys} (hnc : NoCalc inp) (h : Reach inp 
     | take w => cases hs
     | done w => cases hs
 
-theorem preach_invC {inp : RunInput} {s : Sys} (hnc : NoCalc inp) (h : PReach inp s) : InvC inp s := by
+theorem preach_invC {inp : RunInput} [NoFailDeliver inp] {s : Sys} (hnc : NoCalc inp) (h : PReach inp s) : InvC inp s := by
   induction h with
   | init => exact init_invC inp
   | @next s0 s1 c hr hs ih =>
@@ -502,7 +502,7 @@ theorem reported_iff_cTerm (s : Sys) (t : Name) : Reported s t ↔ cTerm s t ≥
   · rintro ⟨e, he, ht⟩; obtain ⟨d, hd⟩ := terminal_den? ht; exact ⟨d, e, he, hd⟩
 
 /-- nothing outside the denotational closure is ever created, selected, executed or reported -/
-theorem reported_in_closure {inp : RunInput} {s : Sys} (hnc : NoCalc inp) (hr : Reach inp s ∨ PReach inp s) (t : Name)
+theorem reported_in_closure {inp : RunInput} [NoFailDeliver inp] {s : Sys} (hnc : NoCalc inp) (hr : Reach inp s ∨ PReach inp s) (t : Name)
     (h : Reported s t) : DenCl inp t := by
   have hC : InvC inp s := by rcases hr with a | a; exact reach_invC hnc a; exact preach_invC hnc a
   have h3 : Inv3 inp s := by rcases hr with a | a; exact reach_inv3 a; exact (preach_inv a).2
@@ -513,7 +513,7 @@ theorem reported_in_closure {inp : RunInput} {s : Sys} (hnc : NoCalc inp) (hr : 
     have := h3.t t (by simp [stOf, hn, RS.finished])
     omega
 
-theorem created_in_closure {inp : RunInput} {s : Sys} (hnc : NoCalc inp) (hr : Reach inp s ∨ PReach inp s) (t : Name)
+theorem created_in_closure {inp : RunInput} [NoFailDeliver inp] {s : Sys} (hnc : NoCalc inp) (hr : Reach inp s ∨ PReach inp s) (t : Name)
     (nd : Node) (h : s.nodes t = some nd) : DenCl inp t := by
   have hC : InvC inp s := by rcases hr with a | a; exact reach_invC hnc a; exact preach_invC hnc a
   exact (hC.nodes t nd h).1
